@@ -6,13 +6,20 @@ from harness.runner import BCheck
 from scenario import pedigree as PED, phasing as PH
 
 LEVEL = "other"
-LEVEL_TEXT = ("Deductive: CovMonitor (coverage.py) is verified for all inputs (add_read adds one exactly on [begin,end), max_coverage_in_range is the "
-              "maximum over the range) and the family budget f*max(1, k//f) <= k is proved as a lemma over the expression read from phase.py. "
-              "readselect.pyx itself (Cython, priority queue + C++ reads) is covered by the bounded stand-in: the compiled readselection on all read "
-              "sets over <= 5 variants x <= 4 reads (plus seeded larger ones) x caps 1-3 x bridging x preferred sources against an independent recount "
-              "(subset, span coverage <= k, maximality), and whole --ped runs in which the reads handed to the solver are recounted per family.")
-LEVEL_NOTE = "Proved: coverage.py and the budget lemma only. Trusted: z3/cvc5, vcgen semantics. readselect.pyx obligations O1-O4 of DESIGN.md are not discharged."
-TECHNIQUE = "contract-based deductive verification of CovMonitor + budget lemma (vcgen, z3) + bounded runtime contract on the compiled readselection and on run_whatshap"
+LEVEL_TEXT = ("Deductive, all inputs, on the real sources: CovMonitor (coverage.py: add_read adds one exactly on [begin,end), max_coverage_in_range is the maximum "
+              "over the range); the priority queue (priorityqueue.pyx, all operations); and readselect.pyx read through Cython's parser: _slice_read_selection, "
+              "_construct_priorityqueue, readselection_helper and readselection. Proved for readselection: every selected index is an input read; for every variant "
+              "index the number of selected reads spanning it (ghost SPANCOUNT, tied to the coverage monitor by 'coverage[k] == count' through every add_read) is <= "
+              "max_cov; every read left out spans a variant that is already covered max_cov times (maximality) - with and without preferred sources and bridging; no "
+              "KeyError/IndexError/out-of-range C++ access on the way. The family budget f*max(1, k//f) <= k is a lemma over the expression read from phase.py. "
+              "Assumed (listed in the evidence): the two scoring functions return some valid score (which read the queue returns is irrelevant for these properties: "
+              "pops go through an order-free contract), PriorityQueue.pop = c_pop, _construct_indexes returns consistent indexes, SPANCOUNT's two counting axioms and "
+              "additivity over disjoint unions, termination. Bounded stand-in for those and for the phase.py caller: the compiled readselection on all read sets over "
+              "<= 5 variants x <= 4 reads (plus seeded larger ones) x caps 1-3 x bridging x preferred sources against an independent recount (subset, span coverage <= "
+              "k, maximality), and whole --ped runs in which the reads handed to the solver are recounted per family.")
+LEVEL_NOTE = ("Proved: coverage.py, priorityqueue.pyx, readselect.pyx (4 functions) and the budget lemma. Trusted: z3/cvc5, vcgen semantics incl. the Cython lowering, the C++ "
+              "ReadSet/Read accessor model. Not proved: scoring functions, _construct_indexes, select_reads in phase.py (bounded).")
+TECHNIQUE = "contract-based deductive verification of CovMonitor, PriorityQueue and readselect.pyx (vcgen over Cython's parse tree, z3) + bounded runtime contract on the compiled readselection and on run_whatshap"
 D_MODULES = ["contracts.coverage_py", "contracts.priorityqueue_pyx", "contracts.readselect_pyx"]
 EXPLANATION = LEVEL_TEXT
 TRUSTED_BASE = ["z3/cvc5", "vcgen Python semantics (lists as arrays + length)"]
